@@ -95,10 +95,17 @@ def gen_and_small(tier):
             for sizes in ([1, 1], [2]):
                 yield and_case("and", [x, y], sizes, 1)
     p3 = [(leaf(a), leaf(b)) for a in s3 for b in s3]
+    # three fibers: every grouping; in the thorough tier (n = 3: 262144 triples) the
+    # fiber-by-fiber grouping is enumerated on the n = 2 triples only
+    p3s = [(leaf(a), leaf(b)) for a in subsets(2) for b in subsets(2)]
+    small = {repr(p) for p in p3s}
     for x in p3:
         for y in p3:
             for z in p3:
                 for sizes in compositions(3):
+                    if tier != "quick" and sizes == [1, 1, 1] and not (
+                            repr(x) in small and repr(y) in small and repr(z) in small):
+                        continue
                     yield and_case("and", [x, y, z], sizes, 2 if len(sizes) == 2 else 1)
     # the same operand pair repeated without any outer rank (as in test_intersector): per fiber only
     for a in s2:
@@ -386,36 +393,46 @@ def _alarm(signum, frame):
     raise _Timeout()
 
 
-CPU_LIMIT = 3.0          # seconds of CPU time per case (a case normally takes ~1 ms)
+CPU_LIMIT = 4.0          # seconds of CPU time per attempt (a case normally takes ~1 ms)
 _timeouts = {}           # kind -> number of timeouts seen by this worker process
+
+
+def _attempt(case, limit):
+    import signal
+    old = signal.signal(signal.SIGVTALRM, _alarm)
+    signal.setitimer(signal.ITIMER_VIRTUAL, limit)
+    try:
+        return run_swaps(case) if case["kind"] == "swaps" else run_and(case)
+    except _Timeout:
+        Metrics = H.ft().Metrics
+        if Metrics.isCollecting():
+            Metrics.traces = {}
+            Metrics.endCollect()
+        return None
+    finally:
+        signal.setitimer(signal.ITIMER_VIRTUAL, 0)
+        signal.signal(signal.SIGVTALRM, old)
 
 
 def run(case):
     """A changed implementation may not terminate (e.g. a merge round that does not shrink the
     list of lists): every case runs under an alarm on the CPU time of this process (not
-    wall-clock: a loaded machine must not produce timeouts) and a timeout is an observation
-    (ERR).  After 3 timeouts of one kind a worker stops running that kind and reports the
-    remaining cases as timed out too, so that the check still ends."""
-    import signal
+    wall-clock: a loaded machine must not produce timeouts), is retried once with twice the
+    budget (a garbage-collection pause of a worker that holds 10^4 results can cost seconds),
+    and only then a timeout is an observation (ERR).  After 3 timeouts of one kind a
+    worker stops running that kind and reports the remaining cases as timed out too, so that
+    the check still ends."""
+    H.ft()
+    model()              # imports happen outside the alarm
     kind = case["kind"]
     if _timeouts.get(kind, 0) >= 3:
         return _timed_out(case, "ERR:Timeout-not-run")
-    old = signal.signal(signal.SIGVTALRM, _alarm)
-    signal.setitimer(signal.ITIMER_VIRTUAL, CPU_LIMIT)
-    try:
-        if kind == "swaps":
-            return run_swaps(case)
-        return run_and(case)
-    except _Timeout:
-        _timeouts[kind] = _timeouts.get(kind, 0) + 1
-        Metrics = H.ft().Metrics
-        if Metrics.isCollecting():
-            Metrics.traces = {}
-            Metrics.endCollect()
-        return _timed_out(case, "ERR:Timeout")
-    finally:
-        signal.setitimer(signal.ITIMER_VIRTUAL, 0)
-        signal.signal(signal.SIGVTALRM, old)
+    for limit in (CPU_LIMIT, 2 * CPU_LIMIT):
+        out = _attempt(case, limit)
+        if out is not None:
+            return out
+    _timeouts[kind] = _timeouts.get(kind, 0) + 1
+    return _timed_out(case, "ERR:Timeout")
 
 
 def _timed_out(case, what):
